@@ -44,6 +44,24 @@ INVALID = [
     "struct VB { @location(0) flag: bool }\n@vertex fn main(v: VB) -> @builtin(position) vec4<f32> { return vec4<f32>(0.0); }\n",
     "@group(0) @binding(0) var<storage, read_write> counter: atomic<u32>;\n@group(0) @binding(0) var<uniform> dup: f32;\n@compute @workgroup_size(1) fn main() { _ = atomicAdd(&counter, 1u) + u32(dup); }\n",
 ]
+# the validator's first complaint is about a function NO entry point calls (or the module has no entry point at all): the
+# module is rejected all the same
+DEAD_INVALID = [
+    "@group(0) @binding(0) var<storage, read> a: array<f32>;\nfn dead_helper() { a[0] = 1.0; }\n@compute @workgroup_size(1) fn main() { }\n",
+    "@group(0) @binding(0) var<storage, read> a: array<f32>;\nfn dead_helper() { a[0] = 1.0; }\nfn dead_caller() { dead_helper(); }\n",
+    "var<push_constant> pc: f32;\nfn dead_store() { pc = 1.0; }\n@fragment fn fs() -> @location(0) vec4<f32> { return vec4<f32>(pc); }\n",
+    "var<push_constant> pc: f32;\nfn dead_store() { pc = 1.0; }\n@vertex fn main() -> vec4<f32> { return vec4<f32>(0.0); }\n",
+    "@group(0) @binding(0) var<uniform> u: vec4<f32>;\nfn dead_write() { u.x = 2.0; }\nfn live() -> f32 { return u.y; }\n@fragment fn fs() -> @location(0) vec4<f32> { return vec4<f32>(live()); }\n",
+    "@group(0) @binding(0) var t: texture_storage_2d<rgba8unorm, read>;\nfn dead_tex() { textureStore(t, vec2<i32>(0), vec4<f32>(0.0)); }\n@compute @workgroup_size(1) fn main() { }\n",
+]
+# accepted by front end and validator: workgroup sizes given by overrides; enabling validation changes nothing
+OVERRIDE_WG = [
+    "override block: u32 = 64u;\n@compute @workgroup_size(block) fn main() { }\n",
+    "override n = 8;\n@compute @workgroup_size(n, n) fn main() { }\n@compute @workgroup_size(4) fn other() { }\n",
+    "@id(3) override rows: i32 = 2;\noverride scale: f32 = 1.0;\n@group(0) @binding(0) var<storage, read_write> d: array<f32>;\n"
+    "@compute @workgroup_size(rows, 2, rows * 2) fn main() { d[0] = scale; }\n",
+    "override wx: u32;\n@compute @workgroup_size(wx) fn main() { }\n",
+]
 UNI = ["\u0000", "‏", "́", "\U0001F600", "é", " ", "﻿", "‮", "\t", "\r", "\\", "\"", "'", "\x7f", "\u0085"]
 TOKENS = ["{", "}", "(", ")", ";", "@", "->", "<", ">", "var", "fn", "struct", "123", "1.5e", "0x", "/*", "*/", "//", "::", "&", "*"]
 
@@ -123,6 +141,7 @@ def cases(rng, tier):
     seeds.append(open(REPO + "/wgsl_to_wgpu/src/data/bindgroup/vertex_fragment.wgsl").read())
     texts = [(s, "valid") for s in rng.sample(seeds, 25)] + [(t, "semantically_invalid") for t in INVALID]
     texts += [(t, "mention_only") for t in MENTION_ONLY]
+    texts += [(t, "semantically_invalid") for t in DEAD_INVALID] + [(t, "mention_only") for t in OVERRIDE_WG]
     for i in range(n):
         t = corrupt(rng, rng.choice(seeds))
         if rng.random() < 0.2:
